@@ -90,6 +90,11 @@ int snoopy_datasource_egroup (char * const resultBuf, size_t resultBufSize, __at
         }
         buffgr_gid = biggerBuf;
     }
+    if ((ENOENT == lookupStatus) || (ESRCH == lookupStatus)) {
+        // "No such entry" said the other way - this is how glibc answers when the database file itself is absent (minimal container, chroot)
+        lookupStatus = 0;
+        gr_gid = NULL;
+    }
     if (0 != lookupStatus) {
         messageLength  = snprintf(resultBuf, resultBufSize, "ERROR(getgrgid_r)");
     } else {
